@@ -91,7 +91,7 @@ def _conv(cname, argstr):
 
 
 class Node(object):
-    __slots__ = ('raw', 'kind', 'lits', 'fields', 'cnames', 'is_path', 'kids', 'routes')
+    __slots__ = ('raw', 'kind', 'lits', 'fields', 'cnames', 'is_path', 'path_veto', 'kids', 'routes')
 
     def __init__(self, raw):
         self.raw = raw
@@ -102,12 +102,14 @@ class Node(object):
         self.fields = []        # [(name, convert | None)]
         self.cnames = []        # converter name per field (None = plain)
         self.is_path = False
+        self.path_veto = False   # 'safepath': a path-like converter of the harness that vetoes 'zz'
         for spec in pieces[1::2]:
             name, cname, argstr = _FSPEC.match(spec).groups()
-            if cname == 'path':
+            if cname in ('path', 'safepath'):
                 self.is_path = True
+                self.path_veto = cname == 'safepath'
             self.cnames.append(cname)
-            self.fields.append((name, _conv(cname, argstr) if cname and cname != 'path' else None))
+            self.fields.append((name, _conv(cname, argstr) if cname and cname not in ('path', 'safepath') else None))
         if not self.fields:
             self.kind = LIT
         elif len(self.fields) == 1 and self.lits == ['', '']:
@@ -135,7 +137,10 @@ class Node(object):
         if self.kind == LIT:
             return ([({}, i + 1)] if s == self.raw else []), False
         if self.is_path and self.kind == SINGLE:
-            return [({self.fields[0][0]: '/'.join(segs[i:])}, len(segs))], False
+            rest = '/'.join(segs[i:])
+            if self.path_veto and 'zz' in rest:
+                return [], True          # the converter vetoed: the next sibling is tried
+            return [({self.fields[0][0]: rest}, len(segs))], False
         opts, skip = [], False
         for vals in (self._splits(s, 0, 0) if self.kind == MULTI else [(s,)]):
             params = {}
